@@ -635,7 +635,8 @@ func c18One(c *ctx, rn c18Run) {
 			res = "no outcome within 20s after exit"
 		}
 		c.R.Count("inflight_items", 1)
-		if it.due >= 0 && it.due <= 0.5 {
+		// (with a wait of zero nothing is "in flight and due within the wait": only the bounds are checked in such a run)
+		if it.due >= 0 && it.due <= 0.5 && rn.W > 0 {
 			if res != "ok" {
 				c.R.Violate("c18:inflight-work-not-drained:"+strings.Fields(it.name)[0], fmt.Sprintf("%s: %s -> %s", desc, it.name, res), in)
 			} else {
